@@ -32,7 +32,7 @@ def stripMD (d : ModelData) : ModelData :=
 
 def stripFH (h : FileHeader) : FileHeader :=
   { h with stackSize := 0, runtimeSize := 0, vertexOffsets := Arr3.rep 0, indexOffsets := Arr3.rep 0,
-           vertexBufferSize := Arr3.rep 0, indexBufferSize := Arr3.rep 0 }
+           vertexBufferSize := Arr3.rep 0, indexBufferSize := Arr3.rep 0, lodCount := 0 }
 
 /-- the sub-mesh record a mesh row points at (`default` outside the table) -/
 def firstSub (subs : List Submesh) (x : Mesh) : Submesh := subs[x.submeshIndex.toNat]?.getD default
